@@ -14,4 +14,5 @@ json.dump({str(k): v for k, v in sorted(table.items())}, open(os.path.join(ref, 
 json.dump({"classes": json.loads(json.dumps(wire_signature(ck)))}, open(os.path.join(ref, "wire_format.json"), "w"), indent=1, sort_keys=True)
 data = repo.const("skepticoin.genesis.genesis_block_data")
 open(os.path.join(ref, "genesis.sha256"), "w").write(hashlib.sha256(data).hexdigest() + "  genesis_block_data (%d bytes)\n" % len(data))
-print(len(table), "checkpoints; genesis", len(data), "bytes")
+json.dump(sorted(repo.functions), open(os.path.join(ref, "api_functions.json"), "w"), indent=0)
+print(len(table), "checkpoints; genesis", len(data), "bytes;", len(repo.functions), "functions")
